@@ -7,8 +7,8 @@ USES_GEN = True
 READY = True
 LEAN_PROPS = "Dashu.Props.C07"
 LEAN_AUDIT = "Dashu.Audit.C07"
-GEN_PROPS = ["Dashu.Props.C07Debug"]      # round 5: Debug (DoubleEnd) mirrored on words, composed with C02 / C09 / C10 kernels
-GEN_AUDIT = ["Dashu.Audit.C07Debug"]
+GEN_PROPS = ["Dashu.Props.C07Debug", "Dashu.Props.C07ParseLink"]      # round 5: Debug (DoubleEnd) mirrored on words, composed with C02 / C09 / C10 kernels
+GEN_AUDIT = ["Dashu.Audit.C07Debug", "Dashu.Audit.C07ParseLink"]
 JOBS = 14
 
 W = 64
@@ -796,11 +796,18 @@ REFINED = [
     "Tie A: radix::digit_from_ascii_byte (three byte ranges, offsets, `res < radix`), is_radix_valid, MIN_RADIX, MAX_RADIX regenerated from radix.rs on every run "
     "(Dashu/Gen/TextDigit.lean); the hand model of the grammar theorems (digitOf, validRadix) equals the regenerated text for every byte and radix "
     "(digit_table_regenerated)",
+    "link to C01 by import (round 8, Proofs/Text/ParseLink.lean, Props/C07ParseLink.lean): the multi-word arithmetic inside the non-power-of-two parser replaced by C01's mirrored kernels "
+    "and proved equal to the Nat-valued parser model THROUGH Props/C01's theorems: parse_chunk on the word buffer with mulWordInPlace (mul_word_in_place_with_carry) and "
+    "`if carry != 0 { push }` has the model's value / the model's error, words < 2^W, length <= groups.len() = the allocated capacity, every W, radix, byte string "
+    "(parse_chunk_on_mul_word_kernel; the kernel's hypotheses are discharged at each iteration: parse_word(group) < range_per_word < 2^W); the whole non_power_two::parse on TypedRepr "
+    "(ofNat, fromBuffer, TRepr.mul / TRepr.add for res_hi * radix_power + res_lo, ubigPow for range_per_word.pow(CHUNK_LEN), prev * prev) returns the model's error or a canonical UBig "
+    "of the model's number, every W >= 4 (parse_non_pow2_on_ubig_kernels; by C01 of_nat_exact, from_buffer_exact, mul_word_in_place_exact, u_mul_exact, u_add_exact, u_pow_exact)",
 ]
 FRONTIER = [
-    "TypedRepr div_rem / sqr / pow / mul of the divide-and-conquer tower and mul_word_in_place_with_carry / UBig * and + of the parsers: "
-    "C01/C02 kernels (ubig_div_rem_exact, mul theorems); Nat arithmetic here (linked by name, not by an imported theorem: the printers' and parsers' "
-    "theorems hold for exact arithmetic, which is what those kernels are proved to compute)",
+    "TypedRepr div_rem / sqr / pow of the PRINTERS' divide-and-conquer tower (fmt/non_power_two.rs: radix_powers by sqr, div_rem by the tower): "
+    "C01/C02 kernels (ubig_div_rem_exact, u_sqr_exact); Nat arithmetic here (linked by name, not by an imported theorem: the printers' "
+    "theorems hold for exact arithmetic, which is what those kernels are proved to compute). The PARSERS' side (mul_word_in_place_with_carry, from_buffer, UBig * / + / pow) "
+    "is linked by import since round 8 (Props/C07ParseLink); the word-level parser of that link is a Lean composition proved equal to the driven model, it is not itself what the driver executes",
     "shift::shr_in_place / shl_in_place / add_in_place inside the chunk routines, rem_by_word / div_by_word_in_place / normalize / div_rem_highest_word / "
     "log_word_base inside Debug are builder-div's / C01's / C10's mirrored models with their proved specs, imported and composed (Props/C07Debug, chunks_model)",
     "padIntegral (Model/Text/Spec.lean) is a hand transcription of core::fmt::Formatter::pad_integral — Rust's standard library is outside /repo, so no theorem "
@@ -827,7 +834,8 @@ THEOREMS = ["Dashu.Props.C07." + t for t in [
     "digit_writer_write_invariant", "print_on_mirrored_low_layer", "raw_digits_on_mirrored_division",
     "write_pieces_recorded", "write_pieces_shape", "print_on_recorded_pieces", "chunks_inverse", "digit_table_regenerated", "chunk_spec_guards", "ubig_bytes_inverse_canonical", "be_bytes_mirrored", "to_chunks_buffers_never_overrun", "from_chunks_result_len_in_words", "chunk_buffer_formulas_regenerated",
     "signed_bytes_length", "signed_bytes_inverse_canonical"]] + [
-    "Dashu.Props.C07Debug." + t for t in ["debug_head_tail_on_words", "debug_text", "debug_text_est_one", "debug_head_tail_true_digits"]]
+    "Dashu.Props.C07Debug." + t for t in ["debug_head_tail_on_words", "debug_text", "debug_text_est_one", "debug_head_tail_true_digits"]] + [
+    "Dashu.Props.C07ParseLink." + t for t in ["parse_chunk_on_mul_word_kernel", "parse_non_pow2_on_ubig_kernels"]]
 EXPLANATION = ("Lean theorems for every word size, radix 2..36 and integer: the printing model (all size classes of both printers) "
                "produces exactly the positional digits; the parsing model equals the documented grammar as a total function on byte "
                "strings (errors included) and parse(print) is the identity in both letter cases; format_prepared equals the "
@@ -856,7 +864,7 @@ LEVEL_TEXT = ("Machine-checked Lean 4 theorems about an executable model of dash
               "per-byte conversion on all lanes for all digits < 36 with no Word overflow, and the buffered DigitWriter with its real flush "
               "delivers exactly the converted digits for any sequence of writes — and the sequence of writes each printer really makes is recorded and is "
               "what the driver feeds to it; Debug ({:?}) is mirrored on words and proved to print the sign, the first and the last digits_per_word decimal "
-              "digits and the digit / bit counts; the digit table of the parsers is regenerated from the source and proved equal to the model's. "
+              "digits and the digit / bit counts; the digit table of the parsers is regenerated from the source and proved equal to the model's; the non-power-of-two parser re-run on C01's mirrored word / UBig kernels (mul_word_in_place_with_carry, from_buffer, *, +, pow) is proved, through C01's imported theorems, to return the model's number in canonical form or the model's error. "
               "The hand-written model is tied to /repo on every run by differential "
               "execution (model vs real code) over all thresholds of both converters and a malformed-text stream, plus a direct "
               "comparison of all flag combinations with Rust's primitive integer formatting.")
